@@ -326,6 +326,8 @@ class ProcCompiler(P.FuncCompiler):
                         self.bad(s, 'unpacking of other than two elements')
                     sets = []
                     for i, nm in enumerate(names):
+                        if nm in self.dropped:
+                            continue      # the throw-away target `_` (never read): not stored
                         text, r = self.set_local(nm, Ex('t.1.%d' % (i + 1), prune(item)[i + 1]), s)
                         sets.append(text)
                     body = 'let v : %s := { v with %s := { v.%s with %s := t.2 } }' % (self.locals_ty, o, o, a)
@@ -478,6 +480,11 @@ class ProcCompiler(P.FuncCompiler):
         for n in local_names:
             if n == 'self':
                 self.bad(node, 'assignment to self')
+        self.dropped = set()
+        if '_' in local_names and not any(isinstance(n, ast.Name) and n.id == '_' and isinstance(n.ctx, ast.Load)
+                                          for n in ast.walk(node)):
+            local_names.remove('_')
+            self.dropped.add('_')
         for n in ast.walk(node):
             if isinstance(n, ast.Name) and isinstance(n.ctx, (ast.Store, ast.Del)) and n.id in self.params and self.is_obj(n.id):
                 self.bad(n, 'assignment to the object parameter %s' % n.id)
@@ -675,6 +682,7 @@ STATE_SPECS = {
             ('CoderState', 'cancel_bitmap', {'self': 'rec:CoderState', 'mutates': ['self']}),
             ('CoderState', 'cancel_all_back_references', {'self': 'rec:CoderState', 'mutates': ['self']}),
             ('CoderState', 'cancel_new_refvals', {'self': 'rec:CoderState', 'mutates': ['self']}),
+            ('CoderState', 'add_bitmap_link', {'self': 'rec:CoderState', 'mutates': ['self']}),
             ('Coder', 'process_operator_descriptor', {
                 'self': 'callbacks',
                 'params': {'state': 'rec:CoderState', 'bit_operator': 'opaque:BitOperator', 'descriptor': 'rec:OperatorDescriptor'},
